@@ -1,5 +1,6 @@
 #!/usr/bin/env python3
 
+from copy import deepcopy
 import datetime
 import traceback
 from warnings import warn
@@ -66,14 +67,16 @@ class Scenario:
         :type options: dict
         """
 
-        options['events'] = self.events
+        # strategies with foresight move signal times: let them work on their own copy of the events
+        events_copy = deepcopy(self.events)
+        options['events'] = events_copy
         options['interval'] = self.interval
         options['stop_time'] = self.stop_time
         options['n_intervals'] = self.n_intervals
         options['core_standing_time'] = self.core_standing_time
         strat = strategy.class_from_str(strategy_name)(self.components, self.start_time, **options)
 
-        event_steps = self.events.get_event_steps(self.start_time, self.n_intervals, self.interval)
+        event_steps = events_copy.get_event_steps(self.start_time, self.n_intervals, self.interval)
 
         gc_ids = self.components.grid_connectors.keys()
 
